@@ -177,6 +177,16 @@ def build_cluster(case, root, cfgdir):
     form = case["form"]
     os.makedirs(cfgdir, exist_ok=True)
     build_cluster.last = {}
+    # a configuration file may be addressed by an absolute path, by its bare name from its own directory or by a
+    # relative path from the directory above (by the options of the case, no draw)
+    how = sum(map(ord, label_of(case))) % 3
+
+    def addr(path):
+        if how == 0:
+            return path
+        os.chdir(cfgdir if how == 1 else os.path.dirname(cfgdir))
+        return os.path.relpath(path, os.getcwd())
+
     if form == "create":
         return StorageBackend.create(scfg["type"], scfg), None
     if form == "cluster":
@@ -185,7 +195,7 @@ def build_cluster(case, root, cfgdir):
     if form == "repo_json":
         with open(os.path.join(cfgdir, "repo.json"), "w") as f:
             json.dump({"name": "r", "clusters": {"c": ccfg}}, f)
-        repo = m.ConfigurationRepository.from_file(os.path.join(cfgdir, "repo.json"))
+        repo = m.ConfigurationRepository.from_file(addr(os.path.join(cfgdir, "repo.json")))
     elif form == "repo_yaml_template":
         # the YAML file is a jinja template; every path and option comes in as a template parameter
         tcfg = json.loads(json.dumps(ccfg))
@@ -209,7 +219,7 @@ def build_cluster(case, root, cfgdir):
             "readonly: false", "readonly: " + ["false", "no", "Off", "NO"][k])
         with open(os.path.join(cfgdir, "repo.yaml"), "w") as f:
             f.write(text)
-        repo = m.ConfigurationRepository.from_file(os.path.join(cfgdir, "repo.yaml"), **params)
+        repo = m.ConfigurationRepository.from_file(addr(os.path.join(cfgdir, "repo.yaml")), **params)
     else:  # env_json_nested: env file -> relative repo file -> relative cluster file
         os.makedirs(os.path.join(cfgdir, "repos", "clusters"), exist_ok=True)
         with open(os.path.join(cfgdir, "repos", "clusters", "c.json"), "w") as f:
@@ -218,7 +228,7 @@ def build_cluster(case, root, cfgdir):
             json.dump({"name": "r", "clusters": {"c": "clusters/c.json"}}, f)
         with open(os.path.join(cfgdir, "env.json"), "w") as f:
             json.dump({"name": "e", "repos": ["repos/r.json"]}, f)
-        e = m.Environment.from_file(os.path.join(cfgdir, "env.json"))
+        e = m.Environment.from_file(addr(os.path.join(cfgdir, "env.json")))
         cl = e.get_cluster("c")
         build_cluster.last = {"env": e}
         return (cl.storage if cl else None), cl
